@@ -153,12 +153,12 @@ type c08Opts struct {
 	B string `json:"b,options=x|y"`
 	E string `json:"e,optional=b"`
 	N string `json:"n,optional=!b"`
-	D int    `json:"d,default=3,options=3|4"`
+	D int    `json:"d,default=3,options=3|4|9,range=[1:5]"`
 	S string `json:"s,default=y,options=[x,y]"`
 }
 
 //verif:entry native tier=quick,thorough steps=4000000 maporder=first cover=accepted,rejected,badoption,depboth,depmixed,notdep,default
-//verif:doc Unmarshaler("json").Unmarshal into struct{B string options=x|y; E string optional=b; N string optional=!b; D int default=3 options=3|4; S string default=y options=[x,y]}: every key present or absent, strings as atoms (equal to an option or not: solver-chosen), D as native int or json.Number from {2,3,4}: accepted iff B is supplied and is one of its options, E is supplied exactly when B is, N exactly when B is not, and every supplied D/S is one of its options; then the target holds the supplied values and the defaults for absent fields.
+//verif:doc Unmarshaler("json").Unmarshal into struct{B string options=x|y; E string optional=b; N string optional=!b; D int default=3 options=3|4|9 range=[1:5]; S string default=y options=[x,y]}: every key present or absent, strings as atoms (equal to an option or not: solver-chosen), D as native int or json.Number from {2,3,4,9} (2 is inside the range but no option, 9 an option outside the range: both constraints must hold): accepted iff B is supplied and is one of its options, E is supplied exactly when B is, N exactly when B is not, and every supplied D/S is one of its options and D inside its range; then the target holds the supplied values and the defaults for absent fields.
 func Verif_C08_StructOptions() {
 	m := map[string]any{}
 	hasB, hasE, hasN, hasD, hasS := rt.Bool("hasB"), rt.Bool("hasE"), rt.Bool("hasN"), rt.Bool("hasD"), rt.Bool("hasS")
@@ -179,7 +179,7 @@ func Verif_C08_StructOptions() {
 	}
 	ok = ok && hasE == hasB && hasN != hasB
 	if hasD {
-		d = []int64{2, 3, 4}[rt.Choose("d", 3)]
+		d = []int64{2, 3, 4, 9}[rt.Choose("d", 4)] // 2: inside the range, not an option; 9: an option, outside the range
 		if rt.Choose("dForm", 2) == 1 {
 			m["d"] = json.Number(strconv.FormatInt(d, 10))
 		} else {
